@@ -64,8 +64,10 @@ def famCrash (H : HashFn) (kv : KV) : String × String :=
         let st : Store := { api := api, file := rr.file, base := o.base, pos := 0, idx := [], roots := roots }
         let okAll := acked.all fun b =>
           if Spec.idRule o b.cid then true else
-          -- some intact section carrying the block's key and bytes is still in the file
-          (List.range (st.payloadBytes.length + 1)).any fun off => intactAt rr.file o.base off b
+          -- some intact section carrying the block's key and bytes is still in the file (a put that was
+          -- acknowledged as "already stored" lives in the section of the block that carries its key)
+          (attempted.filter fun a => Spec.sameKey o a.cid b.cid && a.data == b.data).any fun a =>
+            (List.range (st.payloadBytes.length + 1)).any fun off => intactAt rr.file o.base off a
         s!"open=err safe={if okAll then 1 else 0}"
       | .ok s1 =>
         let has := acked.all fun b =>
